@@ -300,7 +300,7 @@ def reqs_for(sess, st):
         if st.get("size") is not None:
             o["size"] = st["size"]
         if "meta" in st:
-            o["meta"] = {"v": st["meta"]}
+            o["meta"] = sess._opts_conc({"meta": st["meta"]})["meta"]
             sop["meta"] = u.meta_id(st["meta"])
         r0 = {"op": "open_writer", "sync": is_sync, "via": "opts", "opts": o}
         if keyed:
